@@ -117,6 +117,16 @@ def cases(tier):
                             for mode in ("none", "record"):
                                 add(c={"maxsegs": xc, "window": 8}, s={"maxsegs": xs, "window": 8}, reqs=[(n, 0)], peerinfo=mode)
                             add(c={"maxsegs": xc, "window": 8}, s={"maxsegs": xs, "window": 8}, reqs=[(0, n)], peerinfo="none")
+    # (E) the server's record of the client is stale: it says more than the request being answered allows
+    for true_c in ({"seg": "noSegmentation", "maxapdu": 206}, {"seg": "segmentedTransmit", "maxapdu": 50},
+                   {"seg": "segmentedBoth", "maxapdu": 128}, {"seg": "segmentedBoth", "maxapdu": 50, "maxsegs": 2}):
+        for believed in ({"seg": "segmentedBoth", "maxapdu": 1476}, {"seg": "segmentedReceive", "maxapdu": 480},
+                         {"seg": "segmentedBoth", "maxapdu": 1476, "maxsegs": 64}):
+            for n in (20, payload_for(true_c["maxapdu"] - 3), payload_for(true_c["maxapdu"] - 2), payload_for(true_c["maxapdu"] + 40),
+                      payload_for(3 * true_c["maxapdu"]), payload_for(480), payload_for(1400)):
+                for mode in ("record", "iam"):
+                    add(c=dict(true_c, window=4), s={"maxapdu": 1476, "window": 4}, reqs=[(0, n)], peerinfo=mode,
+                        views={"s_of_c": believed})
     # (D) windows
     for wc in (1, 2, 16, 127):
         for ws in (1, 2, 16, 127):
@@ -134,17 +144,23 @@ def judge(sysm):
     problems = []
     mode = cfg.peerinfo if cfg.peerinfo not in (True, False) else ("record" if cfg.peerinfo else "none")
     rq_len, rs_len = cfg.reqs[0]
-    # what the server announced to the client
-    srv_max = cfg.s["maxapdu"] if mode in ("iam", "record") else None
-    srv_seg = cfg.s["seg"] if mode in ("iam", "record") else None
-    srv_maxsegs = cfg.s["maxsegs"] if mode == "record" else None
+    # what the server announced to the client: updated while walking the events ("told" = record given / I-Am delivered)
+    srv_max = srv_seg = srv_maxsegs = None
     cm, sm = str(sysm.client.address), str(sysm.server.address)
     # frames emitted, in causal order
     req_hdr = None          # header of the request the response answers (as seen on the wire)
     req_segments = set()
     ack_segments = set()
     proposed = {}           # (sender, type) -> proposed window of the first segment
+    first_told = None
+    attempt = (None, None, None)    # what the server had announced when the current transmission attempt of the request began
+    prev_req = None                 # previous request frame of the client
     for ev in sysm.events:
+        if ev[0] == "told":
+            srv_max, srv_seg, srv_maxsegs = ev[3], ev[4], ev[5]
+            if first_told is None:
+                first_told = (srv_max, srv_seg, srv_maxsegs)
+            continue
         if ev[0] != "emit":
             continue
         src, data = ev[2], ev[4]
@@ -158,15 +174,22 @@ def judge(sysm):
         if a["type"] == 0 and src == cm:
             if req_hdr is None or not a["seg"] or a["seq"] == 0:
                 req_hdr = a
-            if srv_max is not None and a["length"] > srv_max:
+            # a new attempt begins with an unsegmented request, or with segment 0 after the whole request had been sent
+            # (retry after the APDU timeout); a transfer under way is judged by what was announced when it began
+            if (not a["seg"]) or (a["seq"] == 0 and (prev_req is None or not prev_req["seg"] or not prev_req["mor"])):
+                attempt = (srv_max, srv_seg, srv_maxsegs)
+                req_segments = set()
+            prev_req = a
+            a_max, a_seg, a_maxsegs = attempt
+            if a_max is not None and a["length"] > a_max:
                 problems.append(("request-apdu-longer-than-peer-announced:%s" % ("segment" if a["seg"] else "unsegmented"),
-                                 {"length": a["length"], "announced": srv_max, "via": mode, "over_by": a["length"] - srv_max}))
+                                 {"length": a["length"], "announced": a_max, "via": mode, "over_by": a["length"] - a_max}))
             if a["seg"]:
                 req_segments.add(a["seq"])
-                if srv_seg is not None and srv_seg not in ("segmentedReceive", "segmentedBoth"):
-                    problems.append(("segmented-request-to-peer-that-cannot-receive-segments", {"peer": srv_seg, "via": mode}))
-                if srv_maxsegs and len(req_segments) > srv_maxsegs:
-                    problems.append(("request-in-more-segments-than-peer-accepts", {"segments": len(req_segments), "limit": srv_maxsegs}))
+                if a_seg is not None and a_seg not in ("segmentedReceive", "segmentedBoth"):
+                    problems.append(("segmented-request-to-peer-that-cannot-receive-segments", {"peer": a_seg, "via": mode}))
+                if a_maxsegs and len(req_segments) > a_maxsegs:
+                    problems.append(("request-in-more-segments-than-peer-accepts", {"segments": len(req_segments), "limit": a_maxsegs}))
                 _window(a, proposed, (src, 0), problems)
         elif a["type"] == 3 and src == sm:
             if req_hdr is None:
@@ -196,7 +219,13 @@ def judge(sysm):
     got = O.judge_outcomes(sysm, problems)
     O.judge_payloads(sysm, got, problems)
     c = got.get(1)
-    if c is not None:
+    if first_told is not None:
+        srv_max, srv_seg, srv_maxsegs = first_told
+    if c is not None and cfg.reannounce:
+        # capabilities change under way: only the wire rules above are insisted on, plus a proper outcome kind
+        if c[1] not in ("ack", "abort"):
+            problems.append(("unexpected-outcome:%s" % c[1], {}))
+    elif c is not None:
         feas_req = feasible(len(segmon.private_transfer_data(1, b"\0" * rq_len)), srv_max, REQ_HDR, REQ_HDR_SEG,
                             cfg.c["seg"] in ("segmentedTransmit", "segmentedBoth"),
                             None if srv_seg is None else srv_seg in ("segmentedReceive", "segmentedBoth"), srv_maxsegs)
@@ -280,6 +309,59 @@ def shard(item, deadline):
     return acc
 
 
+def e1_cfgs(tier):
+    """The server shrinks its capabilities and re-announces them while a request is under way (drop / late / re-announce
+    as deviations): whatever the client sends after the new I-Am was delivered must respect it."""
+    out = []
+    for new in ({"maxapdu": 206, "seg": "noSegmentation"}, {"maxapdu": 50, "seg": "segmentedBoth"}, {"maxapdu": 128, "seg": "segmentedTransmit"}):
+        for n in (payload_for(480 - 4 - 60), payload_for(1000), payload_for(150)):
+            out.append(Cfg(c={"maxapdu": 480, "retries": 2}, s={"maxapdu": 480, "retries": 2}, reqs=[(n, 0)], peerinfo="iam",
+                           reannounce=new, label="reannounce"))
+    if tier != "quick":
+        for new in ({"maxapdu": 50, "seg": "noSegmentation"},):
+            for n in (payload_for(100), payload_for(300)):
+                out.append(Cfg(c={"maxapdu": 128, "retries": 3}, s={"maxapdu": 128, "retries": 3}, reqs=[(n, n)], peerinfo="iam",
+                               reannounce=new, label="reannounce"))
+    return out
+
+
+def e1_plan(item, deadline):
+    cfg_json, bound = item
+    cfg = Cfg.from_json(cfg_json)
+    acc = Acc()
+    sysm, points = run_execution(cfg, ())
+    from bv.engine import explorer
+    acc.info["kids"] = [(cfg_json, bound, list(k)) for k in explorer.children(points, 0, bound)]
+    return acc
+
+
+def e1_subtree(item, deadline):
+    from bv.engine import explorer
+    cfg_json, bound, root = item
+    cfg = Cfg.from_json(cfg_json)
+    acc = Acc()
+
+    def run_(prefix):
+        return run_execution(cfg, prefix, want_states=acc.states)
+
+    def on_exec(sysm, points, prefix):
+        got, problems = judge(sysm)
+        choices = [idx for (m, idx) in points]
+        acc.case(("e1", cfg.key(), tuple(choices)))
+        acc.traces += 1
+        acc.transitions += len(points)
+        acc.outcome("e1:%s" % (got[1][1] if 1 in got else "none"))
+        for prob, detail in problems:
+            acc.fail("cap:e1:%s" % prob, {"problem": prob, "detail": detail, "cfg": cfg.describe(), "schedule": explorer.labels(points),
+                                          "wire": [(frame_label(f[4]), len(f[4]) - 2) for f in sysm.wire.log][:16]},
+                     {"cfg": cfg_json, "choices": choices})
+
+    n, capped = explorer.explore(run_, bound, on_exec, deadline, roots=(tuple(root),))
+    if capped:
+        acc.cap("E1: deadline inside a subtree")
+    return acc
+
+
 def run(tier, seed, deadline):
     vclock.install()
     acc = Acc()
@@ -290,6 +372,11 @@ def run(tier, seed, deadline):
         raise HarnessError("C12: one configuration gave two different wire logs")
     run_shards(shard, chunks(cs, 128), deadline, into=acc)
     acc.info["configurations"] = len(cs)
+    bound = 2 if tier == "quick" else 3
+    plan = run_shards(e1_plan, [(c.to_json(), bound) for c in e1_cfgs(tier)], deadline)
+    kids = plan.info.pop("kids", [])
+    acc.info["E1 re-announce first-level deviations"] = len(kids)
+    run_shards(e1_subtree, kids, deadline, into=acc)
     s = run_execution(Cfg.from_json(cs[7]), ())[0]
     acc.sample({"cfg": s.cfg.describe(), "wire": [(frame_label(f[4]), len(f[4]) - 2) for f in s.wire.log],
                 "outcome": [(c[1], c[4] if not isinstance(c[4], bytes) else len(c[4])) for c in s.client.confirmations]})
@@ -299,7 +386,7 @@ def run(tier, seed, deadline):
 def replay(case):
     vclock.install()
     cfg = Cfg.from_json(case["cfg"])
-    sysm, points = run_execution(cfg, (), max_steps=3000)
+    sysm, points = run_execution(cfg, tuple(case.get("choices", ())), max_steps=3000)
     got, problems = judge(sysm)
     text = "cfg=%r\nwire=%r\noutcome=%r\nswallowed=%r\nproblems=%r" % (
         cfg.describe(), [(frame_label(f[4]), len(f[4]) - 2) for f in sysm.wire.log][:40],
